@@ -83,7 +83,8 @@ def judge(case):
 
 def judge_outevent(case):
     ret, formals, wrap = case['outevent']
-    event = ['Ev', 'out', ret, [[f'a{i}', ['T'], d] for i, d in enumerate(formals)]]
+    # the first formal is named like the event itself
+    event = ['Ev', 'out', ret, [['Ev' if i == 0 else f'a{i}', ['T'], d] for i, d in enumerate(formals)]]
     doc = [['extern', 'T', 'int'], ['interface', 'I', [['enum', 'E', ['A']]],
                                     [['Before', 'in', ['void'], []], event]]]
     if wrap:
@@ -226,7 +227,7 @@ def work(job):
             _one({'json': val, 'faults': [['toplevel']]}, part, True)
             part.transitions += 1
     elif kind == 'outevents':
-        rets = [['void'], ['bool'], ['E'], ['N', 'void'], ['I', 'E']]
+        rets = [['void'], ['bool'], ['E'], ['N', 'void'], ['I', 'E'], ['Void'], ['VOID'], ['void', 'void']]
         for ret in rets:
             for n in range(0, 3):
                 for formals in itertools.product(('in', 'out', 'inout'), repeat=n):
@@ -275,7 +276,7 @@ def explore(ctx):
     ctx.rule = ('all single faults (delete key / retype to 11 JSON values / retag to every known class tag / '
                 'invalid identifiers / list emptied, element dropped, duplicated / int variants) at every JSON '
                 'node of every seed document' + (', all pairs of faults on the 1-node seeds' if ctx.thorough else '') +
-                '; every out-event signature over 5 reply types x <=2 formals x 3 directions; non-trivial = '
+                '; every out-event signature over 8 reply types x <=2 formals x 3 directions; non-trivial = '
                 'the parser did not simply return a result; states = distinct mutated documents')
     ctx.bounds = {'seeds': 'large document + all 1-node' + (' and 2-node' if ctx.thorough else '') + ' documents',
                   'faults_per_document': 2 if ctx.thorough else 1}
